@@ -101,6 +101,16 @@ def run(prog, world, sem, rep):
                         return sem.label(resolve(f[1].args[0])) == lab
                     if f[0] == "variant" and f[2] == "None":
                         return sem.label(resolve(f[1])) == lab
+                    if f[0] == "truth" and f[1].op == "call" and f[1].info in ("std::option::Option::map_or", "std::option::Option::is_some_and") and \
+                            f[1].args[-1].op == "closure" and sem.label(resolve(f[1].args[0])) == lab:
+                        # `fee.map_or(false, |v| v > one)` observed false / `fee.map_or(true, |v| v <= one)` observed true / `fee.is_some_and(|v| v > one)`
+                        # observed false: the option is absent or its payload is <= 1
+                        cb = prog.bodies.get(f[1].args[-1].info)
+                        if cb is not None:
+                            g = sem._norm_bool(world.ident(world.ret_expr(cb), expand_ws=False), f[2])
+                            if g[0] == "cmp" and g[1] == "Le":
+                                a0 = world.ident(g[2], expand_ws=False)
+                                return a0.op == "param" and a0.info[1] == 2 and sem.label(g[3]) == ONE
                     return False
                 ok, d = site_guarded(sem, vis, bb, fp)
                 if not ok:
